@@ -85,6 +85,10 @@ def _install():
     REC["scorer"], REC["policy"] = RecordingScorer, RecordingPolicy
 
 
+def reset_state():
+    REC["scorer"] = REC["policy"] = None
+
+
 def preload(prop):
     launch.preload_cli()
     import batchie.cli.calculate_scores  # noqa
